@@ -22,7 +22,8 @@ RULE = ("seeded base circuits: one-qubit random Rz.Ry.Rz products and named gate
         "different from V")
 MANDATORY = ["li_complex_nonsymmetric", "mle_complex_nonsymmetric", "gate_fidelity_other_target",
              "gate_fidelity_same_target", "two_qubit_li", "two_qubit_entangling", "direct_herald",
-             "tomography_object_reused_after_edit", "unnormalised_counts"]
+             "tomography_object_reused_after_edit", "unnormalised_counts", "experiment_without_qubit_post_selection",
+             "data_outside_the_qubit_subspace_refused"]
 DECIDING = ["li_postconditions", "mle_postconditions", "gate_fidelity_postconditions", "callback_pairs_answered",
             "earlier_objects_rechecked"]
 BUDGET = {"quick": 40, "thorough": 600}
@@ -90,13 +91,20 @@ def run(ctx):
     scale_mode = [1.0]
 
     xargs = {"cur": None, "seen": []}
+    unpost = [False]
 
     def experiment(circuits, inputs, *extra):
         xargs["seen"].append(list(extra))
         out = []
         for c, s in zip(circuits, inputs):
             ctx.count("callback_pairs_answered")
-            probs = tomoref.dual_rail_probs(c, list(s), State)
+            if unpost[0]:
+                probs = tomoref.all_output_probs(c, list(s), State)
+                if unpost[0] == "coincidences":
+                    # ... or only the n-fold coincidences among them (no mode holding two photons)
+                    probs = {k_: v_ for k_, v_ in probs.items() if max(k_.s, default=0) <= 1}
+            else:
+                probs = tomoref.dual_rail_probs(c, list(s), State)
             if scale_mode[0] != 1.0:
                 # counts need not be normalised: any common positive factor per result must give the same answer
                 f = scale_mode[0] * float(rng.choice([1.0, 3.0, 0.25]))
@@ -207,7 +215,17 @@ def run(ctx):
             ctx.bucket("unnormalised_counts")
             if scale_mode[0] < 1e-7:
                 ctx.bucket("tiny_total_weight")
-        case = {"n": n, "base": log, "method": method, "base_presented_as": variant, "count_scale": scale_mode[0]}
+        # an experiment that reports the noiseless frequencies of ALL outputs with one photon per qubit on average - it does
+        # not post-select on the qubit subspace. For a base that never leaves the subspace the data is the same; for a
+        # post-selected CZ / CNOT it holds outcomes like |1,1,0,0>, which the library may refuse - or use correctly - but
+        # must not turn into another Choi matrix / fidelity without saying so.
+        unpost[0] = bool(method in ("LI", "GF") and rng.random() < (0.5 if (n == 2 and ent) else 0.12))
+        if unpost[0] and rng.random() < 0.5:
+            unpost[0] = "coincidences"
+        case = {"n": n, "base": log, "method": method, "base_presented_as": variant, "count_scale": scale_mode[0],
+                "experiment_post_selects_on_qubit_subspace": not unpost[0], "experiment_reports": str(unpost[0] or "qubit subspace")}
+        if unpost[0]:
+            ctx.bucket("experiment_without_qubit_post_selection")
         if n == 2 and ent:
             ctx.bucket("two_qubit_entangling")
         fp = circmon.circuit_fingerprint(base, with_unitary=True)
@@ -327,8 +345,11 @@ def run(ctx):
                 continue
             break
         except Exception as e:  # noqa: BLE001
-            ctx.violation(f"{method} raised {type(e).__name__}: {e}", case=case,
-                          mechanism="process_tomography_raised:" + method + ":" + type(e).__name__, monitor="driver")
+            if unpost[0] and isinstance(e, ValueError) and "invalid state" in str(e).lower():
+                ctx.bucket("data_outside_the_qubit_subspace_refused")       # a refusal, said aloud: fine
+            else:
+                ctx.violation(f"{method} raised {type(e).__name__}: {e}", case=case,
+                              mechanism="process_tomography_raised:" + method + ":" + type(e).__name__, monitor="driver")
         if circmon.circuit_fingerprint(base, with_unitary=True) != fp:
             ctx.violation("the base circuit changed", case=case, mechanism="base_changed", monitor="fingerprint")
         # earlier tomography objects must still report their own results
